@@ -16,7 +16,10 @@ STEP_ALLOWED = {
     'OUTPUT':      {'FETCH_FLIP'},                            # output is decided by the flip word
     'INPUT':       {'FETCH_FLIP', 'OUTPUT'},                  # input after output
     'INPUT_STORE': {'INPUT'},                                 # the input bit is stored before the flip
-    'FLIP':        {'FETCH_FLIP', 'OUTPUT', 'INPUT_STORE'},
+    # where the flip is a read-modify-write written out (the python fast loop): the word is read after the op's IO and input store -
+    # an input bit stored into that very word, and an output that must precede a faulting flip, are then part of what is read
+    'READ_TARGET': {'FETCH_FLIP', 'OUTPUT', 'INPUT_STORE'},
+    'FLIP':        {'FETCH_FLIP', 'OUTPUT', 'INPUT_STORE', 'READ_TARGET'},
     'FETCH_JUMP':  {'FLIP'},                                  # only after the flip (self-modifying ops)
     'COUNT':       {'FETCH_JUMP'},                            # op counted after the jump-word fetch
     'LOOPTEST':    {'COUNT'},                                 # self-loop halt test first ...
